@@ -12,13 +12,14 @@ open WhatwgUrl WhatwgUrl.Impl
     (regenerated from /repo on every run; the pre-fix code violated this in `endsInANumber`) -/
 theorem C15_sites_guarded : ∀ s ∈ Generated.errorSites, s.2.2.2 = true := by decide
 
-/-- the error catalogue of errors/codes.go is the enumeration the model uses, in the same order -/
-theorem C15_catalogue : Generated.errorCatalogue = ["DomainToASCII", "DomainToUnicode", "DomainInvalidCodePoint", "HostInvalidCodePoint",
+/-- the error catalogue of errors/codes.go is the enumeration the model uses (as a multiset: the constants are strings, the
+    order of their declarations means nothing) -/
+theorem C15_catalogue : Generated.errorCatalogue.isPerm ["DomainToASCII", "DomainToUnicode", "DomainInvalidCodePoint", "HostInvalidCodePoint",
     "IPv4EmptyPart", "IPv4TooManyParts", "IPv4NonNumericPart", "IPv4NonDecimalPart", "IPv4OutOfRangePart", "IPv6Unclosed",
     "IPv6InvalidCompression", "IPv6TooManyPieces", "IPv6MultipleCompression", "IPv6InvalidCodePoint", "IPv6TooFewPieces",
     "IPv4InIPv6TooManyPieces", "IPv4InIPv6InvalidCodePoint", "IPv4InIPv6OutOfRangePart", "IPv4InIPv6TooFewParts", "InvalidURLUnit",
     "SpecialSchemeMissingFollowingSolidus", "MissingSchemeNonRelativeURL", "InvalidReverseSolidus", "InvalidCredentials", "HostMissing",
-    "PortMissing", "PortOutOfRange", "PortInvalid", "FileInvalidWindowsDriveLetter", "FileInvalidWindowsDriveLetterHost"] ∧
+    "PortMissing", "PortOutOfRange", "PortInvalid", "FileInvalidWindowsDriveLetter", "FileInvalidWindowsDriveLetterHost"] = true ∧
     Generated.errorCatalogue.length = ErrT.all.length := by decide
 
 /-- the classification of every site (function, type, failure flag) as the model replays it. A flipped flag, a new or a
